@@ -213,7 +213,9 @@ pub trait RiRefBufImpl: Sized + RiRefImpl {
 			None => {
 				if let Some(scheme_range) = parse::find_scheme(self.as_bytes(), 0) {
 					let value: &[u8] =
-						if self.authority().is_none() && self.path().looks_like_scheme() {
+						if self.authority().is_none()
+							&& parse::first_segment_has_colon(self.path().as_bytes())
+						{
 							// AMBIGUITY: The URI `http:foo:bar` would become
 							//            `foo:bar`, but `foo` is not the scheme.
 							// SOLUTION:  We change `foo:bar` to `./foo:bar`.
@@ -323,7 +325,7 @@ pub trait RiRefBufImpl: Sized + RiRefImpl {
 				bytes[start] = b'/';
 				bytes[actual_start..(actual_start + path.len())].copy_from_slice(path.as_bytes())
 			}
-		} else if range.start == 0 && path.looks_like_scheme() {
+		} else if range.start == 0 && parse::first_segment_has_colon(path.as_bytes()) {
 			// AMBIGUITY: The URI `old/path` would become `new:path`, but `new`
 			//            is not the scheme.
 			// SOLUTION:  We change `new:path` to `./new:path`.
